@@ -1984,7 +1984,7 @@ class Interp:
                 return AV(origins=a0.origins, deps=res.deps, arr=True)
             shallow = dotted == "copy.copy"
             if shallow and a0.origins and not a0.arr and a0.elts is None and a0.items is None and not a0.rng \
-                    and all(is_visible_root(r) for (r, _) in a0.origins):
+                    and any(is_visible_root(r) for (r, _) in a0.origins):
                 # shallow copy of an object: a new object whose fields still hold the original's objects
                 return AV(origins=FS(("shallow:" + r, pth) for (r, pth) in a0.origins), deps=a0.deps, cls=a0.cls,
                           ckw=a0.ckw, nn=True)
